@@ -2,9 +2,12 @@ import OrbitModel.Proofs.ReplSched
 /-!
 # Replicator: every move of the deterministic scheduler decreases a potential
 
-`pot U s = 3·(fresh hashes of U) + Σ worker weights + #pending`, where a waiting worker weighs 3, a
-fetching one 2, and a worker whose context is cancelled weighs `3·|U|` more (its failure makes its
-hash fresh again). `U` is any finite set of hashes closed under the links of this log's entries.
+`pot U s = 3·(fresh hashes of U) + Σ worker weights + #pending + busy`, where a waiting worker
+weighs 3, a fetching one 2, a finishing one 1, a worker whose context is cancelled weighs `3·|U|` more
+(its failure makes its hash fresh again), and `busy` is 1 while a worker is left: it pays for the
+`LoadEnd` that the last worker's `idle()` may emit (`idle()` fires only when every task is `fetched`,
+that is when no worker is left). `U` is any finite set of hashes closed under the links of this
+log's entries.
 -/
 namespace Orbit.Repl
 
@@ -20,10 +23,19 @@ structure StIn (U : List Nat) (s : St) : Prop where
 def isFresh (s : St) (k : Nat) : Bool := !(s.log.contains k || (task s k).isSome)
 def fresh (U : List Nat) (s : St) : Nat := U.countP (isFresh s)
 def wt (u : Nat) (canc : List Nat) (w : Worker) : Nat :=
-  (if canc.contains w.ctx then 3 * u else 0) + (match w.pc with | .waitSlot => 3 | .fetching => 2)
+  (if canc.contains w.ctx then 3 * u else 0) +
+    (match w.pc with | .waitSlot => 3 | .fetching => 2 | .finishing => 1)
 def wsum (u : Nat) (canc : List Nat) (ws : List Worker) : Nat := (ws.map (wt u canc)).sum
-def pot (U : List Nat) (s : St) : Nat :=
+/-- the part of the potential that a `Load` with a live context does not increase -/
+def potB (U : List Nat) (s : St) : Nat :=
   3 * fresh U s + wsum U.length s.cancelled s.workers + s.pending.length
+/-- 1 while a worker is left -/
+def busy (ws : List Worker) : Nat := if ws.isEmpty then 0 else 1
+def pot (U : List Nat) (s : St) : Nat := potB U s + busy s.workers
+
+theorem busy_le (ws : List Worker) : busy ws ≤ 1 := by unfold busy; split <;> omega
+theorem busy_mid (l1 l2 : List Worker) (w : Worker) : busy (l1 ++ w :: l2) = 1 := by
+  cases l1 <;> simp [busy]
 
 theorem isFresh_iff {s : St} {k : Nat} : isFresh s k = true ↔ k ∉ s.log ∧ task s k = none := by
   unfold isFresh
@@ -111,28 +123,68 @@ theorem failedDone_pending_le (s : St) (h : Nat) :
     (failedDone s h).pending.length ≤ s.pending.length + 1 :=
   flush_pending_le (failPre s h)
 
+/-- `processEntryDone` emits no `LoadEnd` while another task is unfinished -/
+theorem done_pending_of_unfinished {s : St} {h k : Nat} {t : TS} (hk : task s k = some t)
+    (hne : t ≠ .fetched) (hkh : h ≠ k) : (done s h).pending = s.pending := by
+  show (flush (donePre s h)).pending = s.pending
+  rcases flush_cases (donePre s h) with e | ⟨hidle, _, _⟩
+  · rw [e]; rfl
+  · have ht : task (donePre s h) k = some t := by
+      have : task (donePre s h) k = task (setTask s h .fetched) k := task_congr rfl k
+      rw [this, task_setTask]; simp only [hkh, if_false]; exact hk
+    rw [isIdle_false_of_task ht hne] at hidle; cases hidle
+
 variable {net : Nat → Info} {c : Nat} {s s' : St} {U : List Nat}
 
 theorem Move.cancelled_eq (m : Move net s s') : s'.cancelled = s.cancelled := by
-  cases m <;> simp [giveUpSt, slotSt, delTask, setTask]
+  cases m <;> simp [giveUpSt, slotSt, bufSt, delTask, setTask]
 
 /-- **progress**: each scheduler move strictly decreases the potential -/
-theorem Move.pot_lt (hU : Closed net U) (hin : StIn U s) (m : Move net s s') : pot U s' < pot U s := by
+theorem Move.pot_lt (hi : InvS net s) (hU : Closed net U) (hin : StIn U s) (m : Move net s s') :
+    pot U s' < pot U s := by
   have hcan := m.cancelled_eq
-  unfold pot
+  unfold pot potB
   rw [hcan]
   have hfl := fresh_le_length U s'
+  have hb' := busy_le s'.workers
   cases m with
   | fail l1 l2 ctx hh hw hc =>
     have hp := failedDone_pending_le { s with workers := l1 ++ l2 } hh
     have hp' : ({ s with workers := l1 ++ l2 } : St).pending = s.pending := rfl
     rw [hp'] at hp
-    simp only [failedDone_workers, hw, wsum_append, wsum_cons, wt, hc, if_true]
+    have hb := busy_mid l1 l2 ⟨ctx, hh, .fetching⟩
+    rw [failedDone_workers] at hb' ⊢
+    simp only [hw, wsum_append, wsum_cons, wt, hc, if_true] at hb' ⊢
     omega
-  | okForeign l1 l2 ctx hh hw hc hf =>
-    have hp := done_pending_le { s with workers := l1 ++ l2 } hh
-    have hp' : ({ s with workers := l1 ++ l2 } : St).pending = s.pending := rfl
-    rw [hp'] at hp
+  | fetchedForeign l1 l2 ctx hh hw hc hf =>
+    have hfr : fresh U { s with workers := l1 ++ ⟨ctx, hh, .finishing⟩ :: l2 } = fresh U s := rfl
+    have hb := busy_mid l1 l2 ⟨ctx, hh, .fetching⟩
+    have hb2 := busy_mid l1 l2 ⟨ctx, hh, .finishing⟩
+    simp only [hfr, hw, wsum_append, wsum_cons, wt, hc, Bool.false_eq_true, if_false, hb, hb2]
+    omega
+  | fetched l1 l2 ctx hh nw hw hc hf hnd hnew hcov =>
+    have hhU : hh ∈ U := hin.workers ⟨ctx, hh, .fetching⟩ (hw ▸ List.mem_append.2 (Or.inr List.mem_cons_self))
+    have hfr : fresh U (enqd (bufSt s (l1 ++ ⟨ctx, hh, .finishing⟩ :: l2) hh) ctx nw) + nw.length
+        ≤ fresh U s := by
+      apply countP_add_le nw _ _ hnd
+      · intro k hk
+        exact ⟨hU hh hhU hf k (hnew k hk).1, isFresh_iff.2 ⟨(hnew k hk).2.2, (hnew k hk).2.1⟩⟩
+      · intro k hk
+        rw [isFresh_iff, task_enqd] at hk
+        by_cases e' : k ∈ nw
+        · simp [e'] at hk
+        · simp only [e', if_false] at hk
+          exact ⟨isFresh_iff.2 hk, e'⟩
+    have hb := busy_mid l1 l2 ⟨ctx, hh, .fetching⟩
+    have hb2 : busy ((l1 ++ ⟨ctx, hh, .finishing⟩ :: l2) ++ spawn ctx nw) = 1 := by
+      rw [List.append_assoc, List.cons_append]; exact busy_mid _ _ _
+    have hpd : (enqd (bufSt s (l1 ++ ⟨ctx, hh, .finishing⟩ :: l2) hh) ctx nw).pending = s.pending := rfl
+    have hwk : (bufSt s (l1 ++ ⟨ctx, hh, .finishing⟩ :: l2) hh).workers
+        = l1 ++ ⟨ctx, hh, .finishing⟩ :: l2 := rfl
+    simp only [enqd_workers, hwk, hpd, hw, wsum_append, wsum_cons, wt, hc, Bool.false_eq_true, if_false,
+      wsum_spawn _ _ _ _ hc, hb, hb2]
+    omega
+  | finish l1 l2 ctx hh hw =>
     have hfr : fresh U (done { s with workers := l1 ++ l2 } hh) ≤ fresh U s := by
       apply fresh_mono
       · intro k hk; rw [done_log]; exact hk
@@ -141,37 +193,38 @@ theorem Move.pot_lt (hU : Closed net U) (hin : StIn U s) (m : Move net s s') : p
         by_cases e : hh = k
         · simp [e]
         · simp only [e, if_false]; exact hk
-    simp only [done_workers, hw, wsum_append, wsum_cons, wt, hc, Bool.false_eq_true, if_false]
-    omega
-  | ok l1 l2 ctx hh nw hw hc hf hnd hnew hcov =>
-    have hp := done_pending_le (enqd { s with workers := l1 ++ l2, buffer := s.buffer ++ [hh] } ctx nw) hh
-    rw [enqd_pending] at hp
-    have hp' : ({ s with workers := l1 ++ l2, buffer := s.buffer ++ [hh] } : St).pending = s.pending := rfl
-    rw [hp'] at hp
-    have hhU : hh ∈ U := hin.workers ⟨ctx, hh, .fetching⟩ (hw ▸ List.mem_append.2 (Or.inr List.mem_cons_self))
-    have hfr : fresh U (done (enqd { s with workers := l1 ++ l2, buffer := s.buffer ++ [hh] } ctx nw) hh)
-        + nw.length ≤ fresh U s := by
-      apply countP_add_le nw _ _ hnd
-      · intro k hk
-        exact ⟨hU hh hhU hf k (hnew k hk).1, isFresh_iff.2 ⟨(hnew k hk).2.2, (hnew k hk).2.1⟩⟩
-      · intro k hk
-        rw [isFresh_iff, task_done, task_enqd] at hk
-        by_cases e : hh = k
-        · simp [e] at hk
-        · by_cases e' : k ∈ nw
-          · simp [e, e'] at hk
-          · simp only [e, e', if_false] at hk
-            rw [done_log] at hk
-            exact ⟨isFresh_iff.2 hk, e'⟩
-    simp only [done_workers, enqd_workers, hw, wsum_append, wsum_cons, wt, hc, Bool.false_eq_true, if_false,
-      wsum_spawn _ _ _ _ hc]
+    have hb := busy_mid l1 l2 ⟨ctx, hh, .finishing⟩
+    -- the `LoadEnd` is emitted only by the last worker
+    have hpb : (done { s with workers := l1 ++ l2 } hh).pending.length + busy (l1 ++ l2)
+        ≤ s.pending.length + 1 := by
+      cases hl : l1 ++ l2 with
+      | nil =>
+        have := done_pending_le { s with workers := l1 ++ l2 } hh
+        have hp' : ({ s with workers := l1 ++ l2 } : St).pending = s.pending := rfl
+        rw [hp', hl] at this
+        simpa [busy] using this
+      | cons w' ws =>
+        have hm : w' ∈ l1 ++ l2 := hl ▸ List.mem_cons_self
+        have hnd := hi.w_nodup; rw [hw] at hnd
+        have hne := (nodup_split hnd).2 w' hm
+        have ht := hi.w_task w' (hw ▸ mem_split_of hm)
+        have := done_pending_of_unfinished (s := { s with workers := l1 ++ l2 }) (h := hh)
+          ht (tsOf_ne_fetched _) (fun e => hne e.symm)
+        rw [← hl, this]
+        have := busy_le (l1 ++ l2)
+        show s.pending.length + _ ≤ _
+        omega
+    rw [done_workers] at hb' ⊢
+    simp only [hw, wsum_append, wsum_cons, wt, hb] at hb' hpb ⊢
     omega
   | giveUp l1 l2 ctx hh hw hc =>
     have hp := flush_pending_le (giveUpSt s (l1 ++ l2) hh)
     have hp' : (giveUpSt s (l1 ++ l2) hh).pending = s.pending := rfl
     rw [hp'] at hp
     have hwk : (flush (giveUpSt s (l1 ++ l2) hh)).workers = l1 ++ l2 := by rw [flush_workers]; rfl
-    simp only [hwk, hw, wsum_append, wsum_cons, wt, hc, if_true]
+    have hb := busy_mid l1 l2 ⟨ctx, hh, .waitSlot⟩
+    rw [hwk] at hb' ⊢
+    simp only [hw, wsum_append, wsum_cons, wt, hc, if_true, hb]
     omega
   | slot l1 l2 ctx hh hw hc hs =>
     have hfr : fresh U (slotSt s (l1 ++ ⟨ctx, hh, .fetching⟩ :: l2) hh) ≤ fresh U s := by
@@ -186,7 +239,9 @@ theorem Move.pot_lt (hU : Closed net U) (hin : StIn U s) (m : Move net s s') : p
         · simp only [e, if_false]; exact hk
     have hwk : (slotSt s (l1 ++ ⟨ctx, hh, .fetching⟩ :: l2) hh).workers = l1 ++ ⟨ctx, hh, .fetching⟩ :: l2 := rfl
     have hpd : (slotSt s (l1 ++ ⟨ctx, hh, .fetching⟩ :: l2) hh).pending = s.pending := rfl
-    simp only [hwk, hpd, hw, wsum_append, wsum_cons, wt, hc, Bool.false_eq_true, if_false]
+    have hb := busy_mid l1 l2 ⟨ctx, hh, .waitSlot⟩
+    have hb2 := busy_mid l1 l2 ⟨ctx, hh, .fetching⟩
+    simp only [hwk, hpd, hw, wsum_append, wsum_cons, wt, hc, Bool.false_eq_true, if_false, hb, hb2]
     omega
   | deliver batch rest hp =>
     have hfr : fresh U { s with pending := rest, log := joinBatch net s.log batch } ≤ fresh U s := by
